@@ -94,7 +94,8 @@ def graph_case(rng):
                         out.append("\tm%d: %sS%d," % (k, rng.pick(["", "[2]"]), j))
                         edges.append((i, j))
                 else:
-                    out.append("\tm%d: [C%d]u8," % (k, j))
+                    # a named length is a dependency also behind a pointer (the constant must be resolved first)
+                    out.append("\tm%d: %s[C%d]u8," % (k, rng.pick(["", "", "&", "&&", "[2]&", "&[2]"]), j))
                     edges.append((i, j))
             out.append("\tz: u8,")
             out.append("}")
